@@ -183,6 +183,19 @@ CHECKS['C09'] = dict(
     design_ref='DESIGN.md section 6, C09',
     technique='Coq proof (cancel theorems over all continuations of the endpoint model; refutation witness for the recorded finding) + in-Coq trace correspondence with a real endpoint')
 
+CHECKS['C11'] = dict(
+    text='Theorems (props/C11.v): the close sweep visits every registered stream and does to each what its kind requires (pending '
+         'request failed, subscriber failed unless its direction had completed, handler future / publisher cancelled), leaves every '
+         'other object as it was, empties the table from every reachable state, resolves an awaitable at most once and signals a '
+         'subscriber at most once; a cut at any byte offset has delivered a prefix of the frames. Tied to the code by replaying '
+         'recorded histories of a real endpoint ended by EOF / transport error / close() / a cut inside a fragmented length-prefixed '
+         'frame (also racing a local cancel) through the model in Coq, plus the oracle computed from the real stream table at the '
+         'moment of the loss and the runtime part the model cannot exhibit: on_close exactly once, tasks gone, no request left '
+         'hanging, nothing sent during four keep-alive periods of virtual time afterwards. Partial: task cancellation and the '
+         'transport are runtime behaviour observed, not proved.',
+    design_ref='DESIGN.md section 6, C11',
+    technique='Coq proof (close-sweep theorems on the endpoint model) + in-Coq trace correspondence with a real endpoint at random loss points; runtime clauses (on_close once, tasks stopped, no sends) by observation on the virtual-time loop')
+
 NOT_YET = {}
 
 def main():
